@@ -90,11 +90,12 @@ def _ere_escape(t):
     return "".join(("\\" + ch) if ch in "\\.[]()*+?{}|^$" else ch for ch in t)
 
 
-def export_closure(depth=2, **job):
+def export_closure(depth=2, roots=None, **job):
     """export(), then add the user functions called from the exported ones (helpers a refactoring may have
     extracted) until nothing new turns up or `depth` rounds were made.  System-header callees are never followed."""
     fn = list(job.get("fn") or ())
     d = export(**dict(job, fn=fn))
+    followed = set()
     for _ in range(depth):
         have = {f["id"] for f in d.get("functions", [])}
         want = set()
@@ -107,11 +108,15 @@ def export_closure(depth=2, **job):
                 want.add(n["callee"])
             for c in n.get("c") or ():
                 scan(c)
+        import re as _re
         for f in d.get("functions", []):
+            if roots is not None and not _re.search(roots, f.get("qn") or "") and f.get("qn") not in followed:
+                continue
             for b in list(f.get("body") or []) + list(f.get("inits") or []):
                 scan(b)
+        followed |= want
         new = ["^" + _ere_escape(q) + "$" for q in sorted(want) if ("^" + _ere_escape(q) + "$") not in fn]
-        if not new or len(new) > 60:
+        if not new or len(new) > 150:
             break
         fn += new
         d = export(**dict(job, fn=fn))
@@ -123,7 +128,8 @@ def export_many(jobs, workers=16):
     def one(j):
         j = dict(j)
         cl = j.pop("closure", 0)
-        return export_closure(depth=cl, **j) if cl else export(**j)
+        rt = j.pop("closure_roots", None)
+        return export_closure(depth=cl, roots=rt, **j) if cl else export(**j)
     with ThreadPoolExecutor(max_workers=workers) as ex:
         futs = [ex.submit(one, j) for j in jobs]
         return [f.result() for f in futs]
